@@ -982,7 +982,7 @@ def replay(rep):
     from rpft.parsers.creation.flowrowmodel import FlowRowModel
 
     r = rep["replay"]
-    if r["fn"] == "sheet":
+    if r["fn"] in ("sheet", "sheets"):
         return c09_history.replay_sheet(r)
     if r["fn"] == "witness":
         if r.get("flow"):
